@@ -36,7 +36,16 @@ var defaultReal = []string{"package sarama from /repo's working tree (client, br
 var defaultStub = []string{"Kafka cluster = single-threaded model inside the simulation kernel (metadata, logs, idempotence state, coordinator, admin)", "TCP = in-memory net.Conn via Config.Net.Proxy.Dialer", "time = synctest fake clock"}
 
 func specFor(prop string) *propSpec {
-	s := &propSpec{id: prop, level: "exploration", quick: tierBudget{20000, 45 * time.Second, 6}, thorough: tierBudget{400000, 14 * time.Minute, 24}, real: defaultReal, stub: defaultStub}
+	// The quick tier is bounded by a run count (so that two runs with the same VERIF_SEED do the same work whatever
+	// the load of the machine: about 10-40 s on 16 idle cores); its wall-clock cap is only a safety stop.
+	quickRuns := 20000
+	switch prop {
+	case "C07", "C08", "C13", "C12":
+		quickRuns = 12000 // group scenarios and close-point enumeration cost 3-5 ms of CPU per run
+	case "C15":
+		quickRuns = 16000
+	}
+	s := &propSpec{id: prop, level: "exploration", quick: tierBudget{quickRuns, 150 * time.Second, 6}, thorough: tierBudget{400000, 14 * time.Minute, 24}, real: defaultReal, stub: defaultStub}
 	s.rule = "cases are generated from VERIF_SEED (configuration x workload x fault rules x schedule mode); one case = one fresh worker process = one exactly replayable execution; distinct = distinct hash of the observable trace (wire frames + application-visible events with fake-time stamps); non-trivial = at least one fault fired or at least two application operations overlapped"
 	if f := specTweaks[prop]; f != nil {
 		f(s)
